@@ -27,8 +27,10 @@ def make_plan(prop, rng, idx, tier, variant="asan"):
         m = idx % 10
         if m < 6:
             return hist.gen_history(rng, "C14", hostile=True, faults=(m >= 4)), "hostile"
-        if m < 8:
+        if m < 7:
             return hist.gen_history(rng, "C14", sweep=True), "bomb-sweep"
+        if m < 8:
+            return hist.gen_mustfail(rng), "must-fail"
         return hist.gen_history(rng, "C14", faults=True), "faults"
     if prop == "C19":
         from . import cli
